@@ -385,8 +385,8 @@ def block_siblings(rep, u):
                 d, sks[n][d][:80] if d < len(sks[n]) else None, ref[d][:80] if d < len(ref) else None))
         # counter carry
         fn = u.fn(n)
-        inc12 = [pos for pos, root, x, ps in fn.nodes() if x.get("k") == "un" and "++" in x["op"] and word_ref(x["e"]) == ("ctx->state", 12)]
-        inc13 = [pos for pos, root, x, ps in fn.nodes() if x.get("k") == "un" and "++" in x["op"] and word_ref(x["e"]) == ("ctx->state", 13)]
+        inc12 = [pos for pos, root, x, ps in fn.nodes() if core.step_of(x) and core.step_of(x)[1] == 1 and word_ref(core.step_of(x)[0]) == ("ctx->state", 12)]
+        inc13 = [pos for pos, root, x, ps in fn.nodes() if core.step_of(x) and core.step_of(x)[1] == 1 and word_ref(core.step_of(x)[0]) == ("ctx->state", 13)]
         ok = len(inc12) == 1 and len(inc13) == 1 and fn.pos_dominates(inc12[0], inc13[0])
         if ok:
             # word 13 incremented iff word 12 wrapped to 0
